@@ -15,6 +15,7 @@ ASSUMPTIONS = [
     "emitted for that step; gymnasium/networkx/numpy run unmodified on concrete arrays, durations stay symbolic in the dispatcher",
 ]
 STUBS = ["max", "min", "int (dispatcher module only)"]
+XHAIR_PREFIX = "c13_"   # leaf kernels re-decided by CrossHair (vf/xhair/kernels.py)
 BUDGET = {"quick": 420, "thorough": 2400}
 
 
